@@ -276,6 +276,29 @@ def run(chk):
             neg = r[0] == 'val' and r[1] == 0 and math.copysign(1, r[1]) < 0
             if want_neg and not neg:
                 chk.violation('impl-vs-spec', {'expr': UN[f], 'a': repr(a)}, {'impl': repr(r), 'spec': '-0.0'})
+    # ---- xs:float is binary32 (F&O / XSD): values and results are rounded to 24 bits of precision.  The implementation
+    # keeps Python doubles inside the Float class (known finding C06-float-not-single-precision; a redesign)
+    import struct as _struct
+    from elementpath.xpath31 import XPath31Parser as _PF
+
+    def f32(x):
+        return _struct.unpack('f', _struct.pack('f', x))[0]
+    for expr, dbl in (("xs:float('16777217')", 16777217.0), ("xs:float('0.1')", 0.1), ("xs:float(1) div xs:float(3)", 1 / 3),
+                      ("xs:float('0.1') + xs:float('0.2')", 0.1 + 0.2), ("xs:float('1.00000001')", 1.00000001), ("xs:float('1.5')", 1.5),
+                      ("xs:float(3) * xs:float('0.5')", 1.5), ("xs:float('16777216')", 16777216.0)):
+        chk.evaluations += 1
+        try:
+            got = float(_PF().parse(f'xs:double({expr})').evaluate())
+        except Exception as e:
+            chk.violation('impl-raised', {'expr': expr}, repr(e)[:200])
+            continue
+        want = f32(dbl)
+        if got != want:
+            if got == dbl:
+                chk.known('C06-float-not-single-precision', {'expr': f'xs:double({expr})', 'impl': repr(got), 'binary32': repr(want)})
+            else:
+                chk.violation('impl-vs-spec', {'expr': expr}, {'impl': repr(got), 'spec (binary32)': repr(want)})
+
     # ---- the arithmetic operator mapping over operand types (C06/OpTable.v): defined / XPTY0004 and the result type
     from decimal import Decimal as _D
     from elementpath.datatypes import (Float as _F, Date as _Date, DateTime as _DT, Time as _T, YearMonthDuration as _YM,
